@@ -28,8 +28,8 @@ from ..core import AnalysisError, norm, short
 from ..astutil import argn, assigned_value
 from ..layers import layers_of_var, layers_of_expr
 from .common import (cfg_of, fkey, conds, has_cond, cond_texts, stmts_of, walk_body, call_tail, call_name,
-                     returns_of, raises_of, raise_type, protected_by, stmt_of, kwarg, handler_reraises_always)
-from .c15 import next_derived, is_next_call
+                     returns_of, raise_type, protected_by, stmt_of, handler_reraises_always)
+from .c15 import next_derived
 
 COOKIE = 'clastic.middleware.cookie'
 DECODERS = {'b64decode', 'decode', 'loads', 'url_unquote_plus', 'url_unquote', 'unhexlify', 'fromhex', 'int', 'float',
@@ -50,7 +50,7 @@ class _Ctx(object):
         self.ju = self.ck.func('JSONCookie.unserialize')
         self.rq = self.ck.func('SignedCookieMiddleware.request')
         self.sup_calls = [c for c in walk_body(self.ju.node) if isinstance(c, ast.Call) and call_tail(c) == 'unserialize'
-                          and isinstance(c.func.value, ast.Call) and call_name(c.func.value) == 'super']
+                          and isinstance(c.func, ast.Attribute) and isinstance(c.func.value, ast.Call) and call_name(c.func.value) == 'super']
         self.load_calls = [c for c in walk_body(self.rq.node) if isinstance(c, ast.Call) and call_tail(c) == 'load_cookie']
         if len(self.sup_calls) != 1 or len(self.load_calls) != 1:
             raise AnalysisError('cookie call path changed: super().unserialize x%d, load_cookie x%d'
@@ -66,7 +66,12 @@ def run(rep):
     rep.decline('cryptographic strength; JSON round-trip fidelity; clock behaviour at the expiry instant')
     rep.assume('binascii.Error and UnicodeDecodeError are ValueError subclasses (CPython)')
     rep.assume('secure-cookie 0.1.0 as parsed from site-packages/secure_cookie/cookie.py')
-    cx = _Ctx(rep)
+    try:
+        cx = _Ctx(rep)
+    except AnalysisError:
+        raise
+    except Exception as e:
+        raise AnalysisError('cookie module: anchors not recognised (%s: %s)' % (type(e).__name__, e))
     for group in (rule_a, rule_b, rule_c, rule_d):
         rep.guard(_no_crash(group), rep, cx)
 
@@ -469,8 +474,11 @@ def rule_d(rep, cx):
     ncalls = [c for c in walk_body(rq.node) if isinstance(c, ast.Call) and isinstance(c.func, ast.Name) and c.func.id == 'next']
     ok = False
     if len(ncalls) == 1 and not ncalls[0].args and len(ncalls[0].keywords) == 1 and ncalls[0].keywords[0].arg is None:
-        kwv = _follow(rq, ncalls[0].keywords[0].value)
-        ok = isinstance(kwv, ast.Dict) and len(kwv.keys) == 1 and norm(kwv.keys[0]) == 'self.arg_name' and norm(kwv.values[0]) == cvar
+        kw0 = ncalls[0].keywords[0].value
+        kwv = _follow(rq, kw0)
+        # a named mapping must be used for nothing but this call (no entries added on the way)
+        once = not isinstance(kw0, ast.Name) or sum(1 for x in walk_body(rq.node) if isinstance(x, ast.Name) and x.id == kw0.id) == 2
+        ok = once and isinstance(kwv, ast.Dict) and len(kwv.keys) == 1 and norm(kwv.keys[0]) == 'self.arg_name' and norm(kwv.values[0]) == cvar
     rep.check('R16.d', fkey(rq, 'next(**{arg_name: cookie})'), ok, 'the loaded cookie is provided under self.arg_name' if ok else
               'next() is not called with {self.arg_name: <loaded cookie>}', ck, ncalls[0] if ncalls else rq.node)
     cfg = cfg_of(rq)
@@ -611,7 +619,7 @@ def _stamps(cx, fi, cvar):
 
 def _absent_cond(cx, t, pol, cvar):
     """``'_expires' not in cookie`` holds / ``'_expires' in cookie`` does not hold (key through module constants)."""
-    if not (isinstance(t, ast.Compare) and len(t.ops) == 1 and norm(t.comparators[0]) == cvar and cx.fold(t.left) == EXPIRES):
+    if not (isinstance(t, ast.Compare) and len(t.ops) == 1 and norm(t.comparators[0]) in (cvar, cvar + '.keys()') and cx.fold(t.left) == EXPIRES):
         return False
     return (isinstance(t.ops[0], ast.NotIn) and pol is True) or (isinstance(t.ops[0], ast.In) and pol is False)
 
